@@ -3058,6 +3058,12 @@ def _same_abstract(a: Val, b: Val) -> bool:
     if isinstance(a, Arr) and isinstance(b, Arr) and a.ndim == b.ndim:
         eb = b.elem
         for (s0, i0), (s1, i1) in zip(a.axes, b.axes):
+            # the same entries over a different set of positions (all rows / a selection of them) are different arrays
+            if not s0.same_size(s1):
+                return False
+            k0, k1 = s0.key, s1.key
+            if (isinstance(k0, tuple) and k0 and k0[0] == "sub") != (isinstance(k1, tuple) and k1 and k1[0] == "sub"):
+                return False
             eb = sym.subst_ivar(eb, i1, (i0, 0))
         return a.elem == eb
     if isinstance(a, NoneV) and isinstance(b, NoneV):
